@@ -119,6 +119,7 @@ type State struct {
 	lastNow *Term
 	preemptions int
 	atPreempt   bool
+	initDone    map[*ssa.Package]bool // dependency packages whose initialiser has run in this state's lineage
 }
 
 type ndRec struct {
@@ -222,6 +223,10 @@ func (s *State) clone() *State {
 	n.uf = s.uf
 	n.lastNow = s.lastNow
 	n.preemptions = s.preemptions
+	n.initDone = make(map[*ssa.Package]bool, len(s.initDone))
+	for k, v := range s.initDone {
+		n.initDone[k] = v
+	}
 	n.atPreempt = s.atPreempt
 	n.pc = append([]*Term(nil), s.pc...)
 	n.reached = map[string]bool{}
@@ -405,10 +410,13 @@ func (s *State) get(v ssa.Value) Value {
 }
 
 func (m *Machine) lazyInit(s *State, pkg *ssa.Package) {
-	if pkg == nil || m.initDone[pkg] || m.initPkgs[pkg.Pkg.Path()] {
+	if pkg == nil || s.initDone[pkg] || m.initPkgs[pkg.Pkg.Path()] {
 		return
 	}
-	m.initDone[pkg] = true
+	if s.initDone == nil {
+		s.initDone = map[*ssa.Package]bool{}
+	}
+	s.initDone[pkg] = true
 	initFn := pkg.Func("init")
 	if initFn == nil || initFn.Blocks == nil {
 		return
